@@ -780,6 +780,9 @@ def tr_ds(run):
         else:
             from .core import hexs
             tsv.append("%s\t%s" % (kname, hexs(val or b"")))
+    ts_wide = any(n == "timestamp" and b"%lld" in tree_formats(t, set()) for n, _, _, t in entries)
+    tsv.append("ts_wide\t%d" % (1 if ts_wide else 0))
+    js["ts_wide"] = ts_wide
     open(os.path.join(run.scratch, "consts_dstruth.tsv"), "w").write("\n".join(tsv) + "\n")
     run.consts["dstruth"] = js
     return js, entries
